@@ -35,11 +35,12 @@ def tp(p):
 class Gen:
     def __init__(self, seed, profile="eval", nspaces=3, ncells=6, p_raise=0.06,
                  p_none=0.05, p_catch=0.08, p_uncached=0.25, p_lambda=0.2,
-                 obj_refs=True, allow_catch=True):
+                 obj_refs=True, allow_catch=True, p_base_exc=0.0):
         self.rng = random.Random(seed)
         self.profile = profile
         self.p_raise, self.p_none, self.p_catch = p_raise, p_none, p_catch
         self.p_uncached, self.p_lambda = p_uncached, p_lambda
+        self.p_base_exc = p_base_exc
         self.obj_refs = obj_refs
         self.allow_catch = allow_catch
         self.nf = 0
@@ -215,7 +216,8 @@ class Gen:
                 else:
                     ops.append(["const", rng.choice([1, 2, 3])])
             elif k < 0.85 + self.p_raise:
-                ops.append(["raise", rng.randrange(8)])
+                ops.append(["raise", rng.randrange(8) if rng.random() > self.p_base_exc
+                            else 8 + rng.randrange(4)])
                 uses_stmt = True
             elif k < 0.85 + self.p_raise + self.p_none:
                 ops.append(["none"])
@@ -247,10 +249,13 @@ class Gen:
         kinds = list(w)
         for _ in range(50):
             kind = rng.choices(kinds, [w[k] for k in kinds])[0]
-            op = getattr(self, "mk_" + kind)()
+            try:
+                op = getattr(self, "mk_" + kind)()
+            except (IndexError, KeyError, ValueError):
+                op = None       # nothing of that kind can be generated in the current state
             if op is not None:
                 return op
-        return self.mk_call()
+        return {"op": "set_ref", "s": [], "n": "g0", "v": ["int", 10, [], ""], "mode": "auto"}
 
     def mk_call(self):
         cells = self.all_cells()
